@@ -19,7 +19,6 @@ import (
 	"path/filepath"
 	"runtime"
 	"strings"
-	"sync"
 	"sync/atomic"
 	"time"
 
@@ -28,9 +27,17 @@ import (
 	"verifharness/internal/ev"
 )
 
-func main() { ev.Supervise("C14", body) }
+func main() {
+	if os.Getenv("C14_WORKER") != "" {
+		workerMain()
+		return
+	}
+	ev.Supervise("C14", body)
+}
 
-var r *ev.Run
+// r receives everything the histories observe: the ev.Run itself in the
+// coordinator (repro mode), a pipe to the coordinator in a worker process.
+var r reporter
 
 type witness struct {
 	Seed     int64    `json:"history_seed"`
@@ -47,9 +54,10 @@ type witness struct {
 }
 
 func body() {
-	r = ev.Start("C14", "exploration")
-	r.Rule = "histories of ~40 ops from a seeded generator over 2-3 shards of one database, applied to an inmem and a tsi1 store (writes of 1-8 points over a pool of 14-27 series of 5 measurements x 5 tag keys, DROP SERIES / DELETE with tag and regex predicates and measurement sources, DROP MEASUREMENT, tsi compaction, series-file compaction, snapshot, TSM compaction, reopen; tsi1 MaxIndexLogFileSize in {1,256,2048,1MiB}, series partition CompactThreshold in {1,2,8,default}); after every op ~40 questions per store. A question is non-trivial when it is asked after >=1 series was dropped from a shard AND >=1 index compaction, series-file compaction or reopen happened since that drop; distinct by (question kind, predicate operator class, index type, last three op kinds)."
-	r.Assumptions = []string{
+	run := ev.Start("C14", "exploration")
+	r = run
+	run.Rule = "histories of 24-39 ops from a seeded generator over 2-3 shards of one database, applied to an inmem and a tsi1 store (writes of 1-8 points over a pool of 14-27 series of 5 measurements x 5 tag keys, DROP SERIES / DELETE with tag and regex predicates and measurement sources, DROP MEASUREMENT, tsi compaction, series-file compaction, snapshot, TSM compaction, reopen; tsi1 MaxIndexLogFileSize in {1,256,2048,1MiB}, series partition CompactThreshold in {1,2,8,default}); after every op ~40 questions per store. A question is non-trivial when it is asked after >=1 series was dropped from a shard AND >=1 index compaction, series-file compaction or reopen happened since that drop; distinct by (question kind, predicate operator class, index type, last three op kinds)."
+	run.Assumptions = []string{
 		"a series is live iff it holds >= 1 point in some shard; DROP SERIES / DELETE / DROP MEASUREMENT that remove the last point of a series in a shard drop it from that shard's index",
 		"time-bounded DELETEs either cover a shard's whole time window or are generated so that every selected series keeps >= 1 point in the shard: a series emptied only by an accumulation of partial range deletes with gaps may legitimately stay listed until its TSM entry is compacted away (the property speaks of drops, not of emptiness)",
 		"missing tag == empty string: `k = ''` matches series without k, `!=` / `!~` match series lacking the tag unless the literal / regex matches the empty string",
@@ -60,18 +68,13 @@ func body() {
 		"Store.DeleteSeries / DeleteMeasurement deadlock in tsi1 when a log-file compaction is running or is started by the delete of an earlier measurement of the same statement (iterator retained across Index.Wait; a hang is C19's subject, reported separately): deletes are issued after Index.Wait, and on the tsi1 twin with MaxIndexLogFileSize < 1 MiB a statement naming several measurements is issued as one Store.DeleteSeries per measurement the store itself lists; the inmem twin always gets the statement as is",
 		"tag keys named like fields, `value`, `time` or starting with `_` are not generated (they select other code paths by design)",
 	}
-	r.Floor = 40
+	run.Floor = 40
 
-	n := r.Pick(64, 1300)
+	n := run.Pick(40, 800)
 	if v := os.Getenv("C14_N"); v != "" {
 		fmt.Sscan(v, &n)
 	}
-	rng := r.Rand("hist")
-	type job struct {
-		id   string
-		seed int64
-		idx  int
-	}
+	rng := run.Rand("hist")
 	var jobs []job
 	for i := 0; i < n; i++ {
 		jobs = append(jobs, job{fmt.Sprintf("hist/%d", i), rng.Int63(), i})
@@ -80,40 +83,31 @@ func body() {
 	defer os.RemoveAll(root)
 
 	if name := os.Getenv("C14_REPRO"); name != "" {
+		run.Floor = 0
 		runRepro(name, filepath.Join(root, "repro"))
 		os.RemoveAll(root)
-		r.Finish()
+		run.Finish()
 		return
 	}
 
-	ch := make(chan job)
-	var wg sync.WaitGroup
+	only := os.Getenv("C14_ONLY")
+	var todo []job
+	for _, j := range jobs {
+		if run.Skip(j.id) || (only != "" && only != fmt.Sprint(j.idx)) {
+			continue
+		}
+		todo = append(todo, j)
+	}
 	workers := runtime.NumCPU()
 	if workers > 16 {
 		workers = 16
 	}
-	for w := 0; w < workers; w++ {
-		wg.Add(1)
-		go func() {
-			defer wg.Done()
-			for j := range ch {
-				dir := filepath.Join(root, fmt.Sprintf("h%d", j.idx))
-				oneHistory(j.id, j.seed, j.idx, dir)
-				os.RemoveAll(dir)
-			}
-		}()
+	if v := os.Getenv("C14_WORKERS"); v != "" {
+		fmt.Sscan(v, &workers)
 	}
-	only := os.Getenv("C14_ONLY")
-	for _, j := range jobs {
-		if r.Skip(j.id) || (only != "" && only != fmt.Sprint(j.idx)) {
-			continue
-		}
-		ch <- j
-	}
-	close(ch)
-	wg.Wait()
+	coordinate(run, todo, root, workers)
 	os.RemoveAll(root)
-	r.Finish()
+	run.Finish()
 }
 
 // History is the state of one running history.
@@ -147,7 +141,7 @@ func oneHistory(caseID string, seed int64, idx int, dir string) {
 	}
 	maxLog := []int64{1, 1, 1, 256, 2048, 1 << 20}[g.Intn(6)]
 	thr := []int{1, 1, 2, 8, 0}[g.Intn(5)]
-	steps := 30 + g.Intn(20)
+	steps := 24 + g.Intn(16)
 
 	h := &History{caseID: caseID, seed: seed, g: g, m: newModel(shards)}
 	h.gen = newGen(g, h.m)
@@ -219,8 +213,6 @@ func (h *History) apply(op Op) bool {
 	res, dump := ev.Watch(150*time.Second, 15*time.Second, func() {
 		for _, e := range h.envs {
 			var err error
-			te := time.Now()
-			defer func(e *Env) { r.Count("ms_until_end_of_op_"+op.Kind+"_from_start_of_"+e.Index, time.Since(te).Milliseconds()) }(e)
 			switch op.Kind {
 			case "write":
 				err = e.Write(op.Shard, op.pts)
@@ -398,7 +390,9 @@ func (h *History) questions() []Question {
 
 	scopes := [][]uint64{all}
 	one := []uint64{all[g.Intn(len(all))]}
-	scopes = append(scopes, one)
+	if len(h.ops)%2 == 0 {
+		scopes = append(scopes, one) // per-shard questions (tsi1 only) every other step
+	}
 
 	for si, scope := range scopes {
 		scope := scope
@@ -683,8 +677,6 @@ func (h *History) askAll() bool {
 	defer func() { r.Count("ms_in_questions", time.Since(t0).Milliseconds()) }()
 	res, _ := ev.Watch(150*time.Second, 15*time.Second, func() {
 		for _, e := range h.envs {
-			te := time.Now()
-			defer func(e *Env) { r.Count("ms_in_questions_"+e.Index, time.Since(te).Milliseconds()) }(e)
 			for _, q := range qs {
 				if q.TSIOnly && e.Index != "tsi1" {
 					continue
@@ -800,7 +792,10 @@ func (h *History) askNumbers(e *Env) bool {
 			return false
 		}
 	}
-	// sketch-based estimates
+	// sketch-based estimates (every fourth step: merging HLL sketches is costly under -race)
+	if len(h.ops)%4 != 0 {
+		return true
+	}
 	ss, ts, mc, err := e.SketchEstimates()
 	if err != nil {
 		return h.fail("C14/sketches/error/"+e.Index, e, "SeriesSketches / MeasurementsCardinality", all, nil, nil, nil, nil, err.Error())
